@@ -572,7 +572,9 @@ def eval_redir_cases(ctx, cases, root, with_bash, sub="r"):
                 v["classes"] = flags
             specv.append(v)
         if not eq_model:
-            if flags and (eq_spec or any(fl in repaired for fl in flags)):
+            # once some defect is repaired the model (which follows the recorded code) is behind; inside the known
+            # classes spec and model states diverge, so the repaired class cannot be attributed per case
+            if flags and (eq_spec or repaired):
                 for fl in flags:
                     stale[fl] = stale.get(fl, 0) + 1     # defect repaired in the code: the model is behind
             else:
